@@ -15,13 +15,16 @@ Proof.
   - (* +-2^53 = +-1 * 2^53 *)
     apply generic_format_FLT. apply FLT_spec with (Float radix2 (Z.sgn z) 53).
     + unfold F2R; simpl Fnum; simpl Fexp. change (bpow radix2 53) with (IZR (2 ^ 53)).
-      rewrite <- mult_IZR. f_equal. lia.
-    + simpl Fnum. lia.
-    + simpl Fexp. lia.
+      rewrite <- mult_IZR. f_equal.
+      assert (Hc : z = (2 ^ 53)%Z \/ z = (- 2 ^ 53)%Z) by lia.
+      destruct Hc as [-> | ->]; reflexivity.
+    + simpl Fnum. assert (Hc : z = (2 ^ 53)%Z \/ z = (- 2 ^ 53)%Z) by lia.
+      destruct Hc as [-> | ->]; reflexivity.
+    + discriminate.
   - apply generic_format_FLT. apply FLT_spec with (Float radix2 z 0).
     + unfold F2R; simpl; ring.
-    + simpl Fnum. lia.
-    + simpl Fexp. lia.
+    + simpl Fnum. change (Zpower radix2 53) with (2 ^ 53)%Z. lia.
+    + discriminate.
 Qed.
 
 (* float64(a) is exact up to 2^53 *)
